@@ -247,7 +247,7 @@ class BaseTemplate:
             cls, exc, tb = sys.exc_info()
             try:
                 errors = rcontext.get('__error__')
-                if errors:
+                if errors and isinstance(exc, Exception):
                     formatter = exc.__str__
                     if isinstance(formatter, ExceptionFormatter):
                         if errors is not formatter._errors:
